@@ -153,28 +153,64 @@ def off_duty(ctx, P, views, iters):
     for view in views:
         for m in view.methods():
             cls, fn = view.resolve(m)
-            for c in [x for x in ast.walk(fn) if isinstance(x, ast.Call) and call_name(x) == "interrupt_service"]:
-                arg = unparse(c.args[0]) if c.args else "?"
-                ok = False
-                p = c
-                while p is not fn:
-                    p = p._parent
-                    if isinstance(p, ast.If):
-                        f = guards.norm(p.test, unparse)
-                        facts = {}
-                        guards.assume(f, True, facts)
-                        if facts.get(("truth", arg)) is True:
-                            ok = True
-                    if isinstance(p, ast.For):
-                        # element of a list built with the in-service filter
-                        src = unparse(p.iter)
-                        for a in ast.walk(fn):
-                            if isinstance(a, ast.Assign) and unparse(a.targets[0]) == src and "service_start_date is not False" in unparse(a.value):
-                                ok = True
-                ob2.ok("%s.%s:%s" % (cls.name, m, arg), "%s.%s: interrupt_service(%s)" % (cls.name, m, arg))
-                if not ok:
-                    ctx.violation(ob2, "R13.interrupt-in-service", "%s.%s" % (cls.name, m), unparse(c), "interrupt-not-in-service",
-                                  "interrupt_service must only be applied to a customer that is in service", loc(c))
+            if not any(isinstance(x, ast.Call) and call_name(x) == "interrupt_service" for x in ast.walk(fn)):
+                continue
+            w = Walker(P, view, keep=lambda e: e.kind in ("guard", "iter") or (e.kind == "assign" and e.d.get("local")) or (e.kind == "call" and e.d["meth"] == "interrupt_service"),
+                       track=lambda t, f: True, inline=lambda ev: False, loop_iters=iters)
+            bad, seen_ok = {}, set()
+            for st in w.paths_of(cls, fn):
+                for i, e in enumerate(st.events):
+                    if e.kind != "call" or e.d["meth"] != "interrupt_service":
+                        continue
+                    arg = e.d["args"][0] if e.d["args"] else "?"
+                    pc = rules.path_condition(st.events, i)
+                    ok = pc.get(("truth", arg)) is True or _in_service_element(st.events, i, e.node.args[0] if e.node.args else None, e.frame)
+                    ob2.ok("%s.%s:%s" % (cls.name, m, unparse(e.node)), "%s.%s: %s" % (cls.name, m, unparse(e.node)))
+                    if not ok:
+                        bad.setdefault(id(e.node), (e, st))
+            for e, st in bad.values():
+                ctx.violation(ob2, "R13.interrupt-in-service", "%s.%s" % (cls.name, m), unparse(e.node), "interrupt-not-in-service",
+                              "interrupt_service must only be applied to a customer that is in service", e.where, witness(st))
+
+
+def _in_service_element(evs, i, arg, frame):
+    """arg is the loop variable of an enclosing iteration whose source, followed through local definitions, slices and sorted()/list()/reversed(),
+    is a list comprehension that keeps only elements with `x.service_start_date is not False`"""
+    if not isinstance(arg, ast.Name):
+        return False
+    src = None
+    for e in reversed(evs[:i]):
+        if e.kind == "iter" and isinstance(e.node, ast.For) and isinstance(e.node.target, ast.Name) and e.node.target.id == arg.id and e.frame.fid == frame.fid:
+            src = e.node.iter
+            break
+        if e.kind == "assign" and e.d.get("local") and e.d["target"] == arg.id + frame.tag:
+            return False
+    defs = {}
+    for e in evs[:i]:
+        if e.kind == "assign" and e.d.get("local") and e.frame.fid == frame.fid:
+            defs[e.d["target"]] = e.d.get("value_node")
+    for _ in range(10):
+        if src is None:
+            return False
+        if isinstance(src, ast.Subscript) and isinstance(src.slice, ast.Slice):
+            src = src.value
+        elif isinstance(src, ast.Call) and isinstance(src.func, ast.Name) and src.func.id in ("sorted", "list", "reversed", "tuple") and src.args:
+            src = src.args[0]
+        elif isinstance(src, ast.Name):
+            src = defs.get(src.id + frame.tag)
+        elif isinstance(src, (ast.ListComp, ast.GeneratorExp)) and len(src.generators) == 1:
+            g = src.generators[0]
+            if unparse(src.elt) != unparse(g.target):
+                return False
+            v = unparse(g.target)
+            facts = {}
+            for c in g.ifs:
+                guards.assume(guards.norm(c, unparse), True, facts)
+            return facts.get(("eq", v + ".service_start_date", "False")) is False or facts.get(("eq", "False", v + ".service_start_date")) is False \
+                or facts.get(("truth", v + ".service_start_date")) is True
+        else:
+            return False
+    return False
 
 
 def interrupted_first(ctx, P, views, iters):
@@ -186,7 +222,7 @@ def interrupted_first(ctx, P, views, iters):
             cls, fn = view.method(m)
             if cls.name == "PSNode":
                 continue
-            w = Walker(P, view, keep=lambda e: e.kind == "guard" or (e.kind == "call" and e.d["meth"] == "choose_next_customer"), track=lambda t, f: f.depth == 0,
+            w = Walker(P, view, keep=lambda e: e.kind == "guard" or (e.kind == "call" and e.d["meth"] == "choose_next_customer"), track=lambda t, f: True,
                        inline=rules.new_helper, loop_iters=iters)
             for st in w.paths_of(cls, fn):
                 for i, e in enumerate(st.events):
@@ -216,10 +252,10 @@ def starts_need_server(ctx, P, views, iters):
             ob.ok("%s:%s:%s" % (method, s["root"], "attached" if s["attached"] else "no-server-object"), "%s from %s: start of %s, %s" % (method, s["root"], s["token"], "after attach_server" if s["attached"] else "no server object"))
             if s["attached"]:
                 continue
-            fname = e.frame.func.name
-            if e.frame.cls.name == "PSNode" or fname == "slotted_service":
+            stack = {f.func.name for f in typestate._frames(e.frame)}
+            if e.frame.cls.name == "PSNode" or "slotted_service" in stack:
                 continue
-            if fname == "begin_service_if_possible_accept" and guards.implies(s["site"].pc(), ("isinf", "self.c"))[0]:
+            if "begin_service_if_possible_accept" in stack and guards.implies(s["site"].pc(), ("isinf", "self.c"))[0]:
                 continue
             if (method,) not in done:
                 done.add((method,))
@@ -344,10 +380,23 @@ def event_tables(ctx, P, views):
             if isinstance(x, ast.For) and isinstance(x.iter, ast.List):
                 ranked |= {el.value for el in x.iter.elts if isinstance(el, ast.Constant)}
         cls2, fn2 = view.method("have_event")
-        handled = set()
-        for x in ast.walk(fn2):
-            if isinstance(x, ast.Compare) and unparse(x.left) == "self.next_event_type" and isinstance(x.comparators[0], ast.Constant):
-                handled.add(x.comparators[0].value)
+        want = {"end_service": "finish_service", "shift_change": "change_shift", "renege": "renege", "class_change": "change_customer_class_while_waiting", "slotted_service": "slotted_service"}
+        consts = {x.value for x in ast.walk(fn2) if isinstance(x, ast.Constant) and isinstance(x.value, str)}
+        universe = sorted((produced | ranked | set(want) | consts) - {None})
+        handled, runs = set(), {}
+        for t in universe:
+            facts = {}
+            for u in universe:
+                guards.assume(guards.norm(ast.parse("self.next_event_type == %r" % u, mode="eval").body, unparse), u == t, facts)
+            w = Walker(P, view, keep=lambda e: e.kind == "call" and e.d.get("selfcall"), inline=rules.new_helper, track=lambda tt, f: True)
+            seqs = set()
+            for st in w.paths_of(cls2, fn2, facts=facts):
+                if st.status == "raise":
+                    continue
+                seqs.add(tuple(e.d["meth"] for e in st.events if e.kind == "call" and e.d["meth"] in rules.ANCHOR_METHODS))
+            runs[t] = seqs
+            if any(seqs_ for seqs_ in seqs):
+                handled.add(t)
         ob.ok("%s:%s" % (view.name, sorted(produced)), "produced %s ranked %s handled %s" % (sorted(produced), sorted(ranked), sorted(handled)))
         if len(produced) < 5:
             ctx.unrecognised("EVT: only %d event types recognised in view %s" % (len(produced), view.name))
@@ -357,15 +406,11 @@ def event_tables(ctx, P, views):
             ctx.violation(ob, "R12.event-types", "%s.have_event" % cls2.name, repr(t), "produced-not-dispatched", "event type %r is produced but have_event has no branch for it" % t, loc(fn2))
         for t in sorted((ranked | handled) - produced):
             ctx.violation(ob, "R12.event-types", "%s.have_event" % cls2.name, repr(t), "dispatched-not-produced", "event type %r is ranked/dispatched but never produced" % t, loc(fn2))
-        # each branch calls the right handler
-        want = {"end_service": "finish_service", "shift_change": "change_shift", "renege": "renege", "class_change": "change_customer_class_while_waiting", "slotted_service": "slotted_service"}
-        for x in ast.walk(fn2):
-            if isinstance(x, ast.If) and isinstance(x.test, ast.Compare) and isinstance(x.test.comparators[0], ast.Constant):
-                t = x.test.comparators[0].value
-                calls = [call_name(c) for s in x.body for c in ast.walk(s) if isinstance(c, ast.Call)]
-                ob.ok("%s:branch:%s" % (view.name, t))
-                if t in want and calls != [want[t]]:
-                    ctx.violation(ob, "R12.event-types", "%s.have_event" % cls2.name, "%r -> %s" % (t, calls), "wrong-handler", "event type %r must run %s" % (t, want[t]), loc(x))
+        # each event type runs exactly its handler, on every path
+        for t in sorted(handled):
+            ob.ok("%s:branch:%s" % (view.name, t), "%s: %r -> %s" % (view.name, t, sorted(runs[t])))
+            if t in want and runs[t] != {(want[t],)}:
+                ctx.violation(ob, "R12.event-types", "%s.have_event" % cls2.name, "%r -> %s" % (t, sorted(runs[t])), "wrong-handler", "event type %r must run %s" % (t, want[t]), loc(fn2))
 
 
 def timetable(ctx, P):
